@@ -36,6 +36,7 @@ import (
 	"strconv"
 	"strings"
 	"sync"
+	"sync/atomic"
 	"time"
 
 	"github.com/renbou/grpcbridge"
@@ -107,9 +108,13 @@ func goroutineIDs() map[string]bool {
 	return m
 }
 
-func countPollers() int {
+// countPollers counts the resolver poller goroutines started since the baseline was taken.
+func countPollers(base map[string]bool) int {
 	n := 0
 	for _, g := range goroutines() {
+		if base[g.id] {
+			continue
+		}
 		// a goroutine that has not run yet shows only its "created by" line
 		if strings.Contains(g.stack, "reflection.(*Resolver).watch") ||
 			strings.Contains(g.stack, "created by github.com/renbou/grpcbridge/reflection.(*ResolverBuilder).Build") {
@@ -131,7 +136,28 @@ func leaked(base map[string]bool) []gor {
 	return out
 }
 
+// patience: the first few waits that run into their time limit get the full limit; once the tree under
+// test has shown that it leaves things behind, later waits are cut short so that a broken tree is
+// reported in minutes instead of hours (a correct tree never exhausts a wait).
+var slowHits int32
+
+func patience(d time.Duration) time.Duration {
+	if atomic.LoadInt32(&slowHits) >= 4 {
+		return d / 20
+	}
+	return d
+}
+
 func waitFor(d time.Duration, cond func() bool) bool {
+	d = patience(d)
+	ok := waitFor0(d, cond)
+	if !ok {
+		atomic.AddInt32(&slowHits, 1)
+	}
+	return ok
+}
+
+func waitFor0(d time.Duration, cond func() bool) bool {
 	deadline := time.Now().Add(d)
 	for pause := 50 * time.Microsecond; ; pause *= 2 {
 		if cond() {
@@ -297,8 +323,9 @@ func (e *env) waitEnded(conn grpcadapter.ClientConn) int {
 		}
 		select {
 		case <-c.done:
-		case <-time.After(endTimeout):
+		case <-time.After(patience(endTimeout)):
 			stuck++
+			atomic.AddInt32(&slowHits, 1)
 		}
 	}
 	return stuck
@@ -503,8 +530,8 @@ func execLine(input string) string {
 
 	// observations after the history
 	if isRouter {
-		waitFor(leakTimeout, func() bool { return countPollers() <= e.live })
-		out = append(out, fmt.Sprintf("w=%d", countPollers()), fmt.Sprintf("n=%d", e.rr.VerifTargetCount()))
+		waitFor(leakTimeout, func() bool { return countPollers(base) <= e.live })
+		out = append(out, fmt.Sprintf("w=%d", countPollers(base)), fmt.Sprintf("n=%d", e.rr.VerifTargetCount()))
 	}
 	out = append(out, "alive="+e.alive())
 
